@@ -378,7 +378,8 @@ struct VecTarget
         {
         case 1: return iterate_typed<1>(x); case 2: return iterate_typed<2>(x); case 3: return iterate_typed<3>(x); case 4: return iterate_typed<4>(x);
         case 7: return iterate_typed<7>(x); case 8: return iterate_typed<8>(x); case 16: return iterate_typed<16>(x); case 24: return iterate_typed<24>(x);
-        case 40: return iterate_typed<40>(x); default: return true;
+        case 40: return iterate_typed<40>(x); case 64: return iterate_typed<64>(x); case 100: return iterate_typed<100>(x);
+        case 256: return iterate_typed<256>(x); case 1000: return iterate_typed<1000>(x); default: return true;
         }
     }
 
@@ -403,7 +404,7 @@ struct VecTarget
         run.setup_bernoulli(bern_permille, bern_seed);
         keyspace = (uint32_t)std::max<int64_t>(1, p.knob("keyspace", 16));
         maxlen = (size_t)std::max<int64_t>(1, p.knob("maxlen", 48));
-        size_t const z0 = ELEM_SIZES[(size_t)p.knob("zsel", 4) % 10];
+        size_t const z0 = ELEM_SIZES[(size_t)p.knob("zsel", 4) % N_ELEM_SIZES];
         size_t const cap0 = (size_t)p.knob("cap", 8);
         bool const heap0 = p.knob("heap", 1) != 0;
         if (!create(box[0], heap0, z0, cap0) || !create(box[1], !heap0, z0, cap0 / 2 + 1)) return;
@@ -582,7 +583,7 @@ struct VecTarget
         }
         case V_SETZ:
         {
-            size_t const zreq = ELEM_SIZES[(size_t)(((o.a[0] % 10) + 10) % 10)];
+            size_t const zreq = ELEM_SIZES[(size_t)(((o.a[0] % 37) + 37) % 37 % N_ELEM_SIZES)];
             bool const with_dtor = (o.a[1] & 1) != 0;
             std::string const name = nm("setz");
             g_dtor_seen.clear(); g_dtor_outside = false;
@@ -717,7 +718,7 @@ struct VecTarget
         case V_RECREATE:
         {
             if (!destroy(x, (o.a[2] & 1) != 0)) break;
-            size_t zreq = ELEM_SIZES[(size_t)(((o.a[1] % 10) + 10) % 10)];
+            size_t zreq = ELEM_SIZES[(size_t)(((o.a[1] % 37) + 37) % 37 % N_ELEM_SIZES)];
             if (!is_buf && box[(o.client & 1) ^ 1].exists()) { /* both vectors may have different sizes; fine */ }
             create(x, (o.a[0] & 1) != 0, zreq, (size_t)(((uint64_t)(o.a[3] < 0 ? -o.a[3] : o.a[3])) % 33));
             if (zreq == 0) c.st.add("probe.zero_element_size");
@@ -739,9 +740,9 @@ static inline void gen_vec_plan(Rng &r, Plan &p, bool is_buf, bool for_faults, i
     p.set("alloc_default", r.chance(1, 6));
     static const int64_t KS[] = {1, 2, 4, 16, 64, 1000};
     p.set("keyspace", r.pick(KS));
-    static const int64_t ML[] = {4, 8, 16, 48, 120};
+    static const int64_t ML[] = {4, 8, 16, 48, 120, 16, 48, 700};
     p.set("maxlen", r.pick(ML));
-    p.set("zsel", (int64_t)r.below(10));
+    p.set("zsel", gen_zsel(r));
     p.set("cap", (int64_t)r.below(20));
     p.set("heap", r.chance(1, 2));
     p.set("dtor_at_end", r.chance(1, 2));
